@@ -250,6 +250,16 @@ pub fn cases_for(prop: &str, tier: &str, seed: u64, shard: (usize, usize)) -> (V
             }
             let mut tmp: Vec<Case> = vec![];
             family_random_docs(&mut tmp, &pool, &mut rng, n / 3, "validate", &format!("rnd{}x", shard.0), false);
+            // the targeted families of the rule properties, all rules switched on
+            for fp in ["C05", "C07", "C08", "C10", "C11"] {
+                for mut c in exhaustive_family(fp, tier, &mut rng, shard, &pool) {
+                    if tier != "thorough" && !rng.pct(20) {
+                        continue;
+                    }
+                    c.id = format!("{}-{}", fp, c.id);
+                    tmp.push(c);
+                }
+            }
             for mut c in tmp {
                 c.extra = vec![all.clone()];
                 cases.push(c);
@@ -284,10 +294,15 @@ pub fn cases_for(prop: &str, tier: &str, seed: u64, shard: (usize, usize)) -> (V
         "C14" => {
             let n = budget(tier, 1300, 30000) / shard.1;
             for i in 0..n {
-                let si_idx = rng.below(pool.len() - 1);
+                let mut si_idx = rng.below(pool.len() - 1);
+                // valid, mutated and grammar-random documents; every 8th: a structured merge case
+                let structured = i % 8 == 7;
+                if structured {
+                    si_idx = pool.iter().position(|s| s.name == "synthetic").unwrap();
+                }
                 let si = &pool[si_idx];
-                // valid, mutated and grammar-random documents
                 let gdoc: GDoc = match i % 4 {
+                    _ if structured => crate::families::merge_cases(&mut rng, 1).pop().unwrap(),
                     0 | 1 => crate::genvalid::VGen::new(rng.fork(), si, 2 + rng.below(3)).doc(),
                     2 => {
                         let base = crate::genvalid::VGen::new(rng.fork(), si, 2 + rng.below(3)).doc();
